@@ -65,6 +65,12 @@ HAND = [
     # every ctx-carrying class substituted at Store and at Load positions by the control-flow templates
     ('composite', 'def f(a, b, c):\n    if a:\n        b.v = 1\n        c[0] = 2\n    else:\n        b.v = 3\n        c[0] = 4\n    while a:\n        b.v.w += 1\n        c[a] = b.v\n        a -= 1\n    for b.k, c[1] in a:\n        b.v = b.k\n    for (x, *y), z in a:\n        b.v = (x, y, z)\n    return b.v, c\n'),
     ('composite2', 'def f(a, b, c):\n    for (p, q), *r in a:\n        if p:\n            b.x.y, c[p] = q, r\n            continue\n        if q:\n            break\n        c[0] = [p, *r]\n    l = [1, [2, 3]]\n    l[1] = b.x.y\n    l[0] += 1\n    return l, b.x.y, c[0]\n'),
+    # composite symbols (subscripts with literal keys, attribute chains) that become loop / cond state:
+    # control_flow materialises them through QN.ast() in get_state / set_state
+    ('qn_if', "def f(a, b, c):\n    if a:\n        b[-1] = 1\n        b[0] = 2\n        b['k'] = 3\n        c.p.q = 4\n        b[-2.5] = 5\n    else:\n        b[-1] = 6\n        b[0] = 7\n        b['k'] = 8\n        c.p.q = 9\n        b[-2.5] = 10\n    return b[-1], b[0], b['k'], c.p.q, b[-2.5]\n"),
+    ('qn_for', "def f(a, b, c):\n    for i in a:\n        b[-2] = b[-2] + i\n        b[1.5] = i\n        c.p.q.r = b[-2]\n        b['it\\'s'] = i\n        b[True] = i\n        b[None] = i\n    return b[-2], b[1.5], c.p.q.r, b['it\\'s'], b[True], b[None]\n"),
+    ('qn_while', "def f(a, b, c):\n    while a:\n        b[-1] += a\n        b[(1, 2)] = a\n        b[1, -2] = a\n        b[b'x'] = a\n        b[-1j] = a\n        b[2j] = a\n        c[0].v = a\n        c[-3].w = b[-1]\n        c.u[-1] = a\n        a -= 1\n    return b[-1], b[(1, 2)], b[1, -2], b[b'x'], b[-1j], b[2j], c[0].v, c[-3].w, c.u[-1]\n"),
+    ('qn_nested', "def f(a, b, c):\n    for i in a:\n        if i:\n            b[-1][0] = i\n            b[0][-1] = i\n            c.d[-1].e = i\n        while c:\n            b[-0] = i\n            b[+1] = i\n            b[~1] = i\n            b[- 7] = b[-7] + 1\n            c = c - 1\n    return b[-1][0], b[0][-1], c.d[-1].e, b[-0], b[-7]\n"),
     ('printcall', 'def f(a, b, c):\n    print(a, len(b), range(c), sep="")\n    return int(a) + float(b) + abs(c)\n'),
 ]
 
@@ -109,6 +115,46 @@ def gen_programs(rnd, tier):
             except Exception:   # generator option not supported in this combination
                 continue
             out.append(('gen:%s:%d' % (sname, i), src))
+    # random composite state variables: literal keys qual_names can turn into QN literals
+    keys = ['-1', '0', '-2', "'k'", '-1.5', '2.5', '(1, 2)', '(0, -1)', 'True', 'None', "b'y'", '-3j', '1j', '-0', '+2', "''", '10**2', '-(1)', '- 4']
+    for i in range(6 if tier == 'quick' else 40):
+        lines = ['def f(a, b, c):']
+        used = []
+
+        def target():
+            base = rnd.choice(['b', 'c', 'b.m', 'c.p.q'])
+            k = rnd.random()
+            if k < 0.65:
+                t = '%s[%s]' % (base, rnd.choice(keys))
+            elif k < 0.8:
+                t = '%s[%s][%s]' % (base, rnd.choice(keys), rnd.choice(keys))
+            elif k < 0.9:
+                t = '%s[%s].z' % (base, rnd.choice(keys))
+            else:
+                t = base + '.w'
+            used.append(t)
+            return t
+
+        def body(ind, depth):
+            for _ in range(rnd.randint(1, 3)):
+                c_ = rnd.random()
+                if depth < 2 and c_ < 0.35:
+                    hd = rnd.choice(['if a:', 'for i in a:', 'while a:'])
+                    lines.append(ind + hd)
+                    body(ind + '    ', depth + 1)
+                    if hd.startswith('if') and rnd.random() < 0.5:
+                        lines.append(ind + 'else:')
+                        body(ind + '    ', depth + 1)
+                elif c_ < 0.8 or not used:
+                    t = target()
+                    lines.append(ind + rnd.choice(['%s = a', '%s += 1', '%s = %s + 1']).replace('%s', t))
+                else:
+                    lines.append(ind + 'a = %s' % rnd.choice(used))
+        hd = rnd.choice(['if a:', 'for i in a:', 'while a:'])
+        lines.append('    ' + hd)
+        body('        ', 1)
+        lines.append('    return (%s,)' % ', '.join(dict.fromkeys(used)))
+        out.append(('gen:qn:%d' % i, '\n'.join(lines) + '\n'))
     # random walrus programs (a separate stream: known-finding neighbourhood)
     for i in range(3 if tier == 'quick' else 20):
         v = rnd.choice(['n', 'k', 'w'])
@@ -465,10 +511,12 @@ class Monitor(object):
             return nodes
 
         def load_ast(nodes, indentation='  ', include_source_map=False, delete_on_exit=True):
+            rec = {'nodes': nodes, 'module': None, 'source': None}
+            if mon.enabled:
+                mon.loads.append(rec)
             res = mon.orig_load_ast(nodes, indentation=indentation, include_source_map=include_source_map,
                                     delete_on_exit=delete_on_exit)
-            if mon.enabled:
-                mon.loads.append({'nodes': nodes, 'module': res[0], 'source': res[1]})
+            rec['module'], rec['source'] = res[0], res[1]
             return res
 
         templates.replace = replace
@@ -696,6 +744,11 @@ def run_pipeline(run, programs, tmpdir, mon):
                     cv = [v for n in nodes for v in ctx_violations(n)]
                     if cv and not any(w == 'expression context does not match its position' for w, _ in local):
                         local.append(('expression context does not match its position (load_ast nodes)', _short(cv[0][0])))
+                    if not local:
+                        # the wrapped module is what create_source_map walks in lock-step with its re-parse
+                        for n in nodes:
+                            for what, detail in tree_checks(n, parser):
+                                local.append((what + ' (nodes handed to load_ast)', detail))
                 if err is not None:
                     stats['load_failed'] += 1
                     local.append(('conversion failed after transform_ast returned (tree / printed form inconsistent)',
